@@ -11,12 +11,14 @@ outputs are read back with the independent reader elfread.
            Observable (exe, -shared): "PT_GNU_STACK is executable" = the segment exists and has PF_X
            (the presence of a non-executable segment is counted, not judged: the statement speaks
            of executability only). Observable (-r): the state a / n / x of the output's own
-           .note.GNU-stack section, which is what a later final link sees.
+           .note.GNU-stack section, which is what a later final link sees; -r members with a -z
+           option are enumerated and counted but not judged, because GNU ld's result there depends
+           on the order of the inputs ("a n" -z execstack -> x, "n a" -z execstack -> n).
            Oracle: GNU ld on the same member; nothing else (which inputs "imply" an executable
            stack is GNU ld's behaviour, observed, not recollected).
   prop     2 or 3 input objects (quick: all 81 pairs + the stated subset of triples; thorough: all 729
            triples), each with `.note.gnu.property` in PROP_CHOICES (9 choices) x Z in {none,
-           -z x86-64-v2, -z x86-64-v3 [, -z x86-64-baseline, -z x86-64-v4: thorough]
+           -z x86-64-v2, -z x86-64-v3 [, -z x86-64-v4: thorough; GNU ld 2.40 aborts on -z x86-64-baseline]
            [, -z ibt, -z shstk: only if wild accepts them without "not yet supported"]} x kind.
            Observable: the decoded property list (pr_type -> bytes) of the output's
            NT_GNU_PROPERTY_TYPE_0 note(s); for exe / -shared also the presence of PT_GNU_PROPERTY.
@@ -298,6 +300,8 @@ def judge(m, r, stats):
     out = []
     kind, z = m["kind"], "+".join(m["z"]) or "none"
     fam = m["fam"]
+    if fam == "stack" and m["z"]:
+        z = m["z"][-1]              # the last of -z execstack / -z noexecstack wins in both linkers
     ld, wd = r["ld"], r["wild"]
     stats["evaluations"] += 1
     if r["ld_rc"] != 0:
@@ -328,6 +332,13 @@ def judge(m, r, stats):
         out.append((f"{fam}:{kind}:unreadable-output", f"wild's output cannot be decoded: {wd}"))
         return out
     if fam == "stack":
+        if kind == "r" and m["z"]:
+            # GNU ld's -r with -z execstack / noexecstack depends on the order of the inputs
+            # ("a n" -> x, "n a" -> n): not a usable reference. Enumerated and counted only.
+            stats["stack_r_with_z_not_judged"] += 1
+            if ld["stack"] != wd["stack"]:
+                stats["stack_r_with_z_differs"] += 1
+            return out
         if kind == "r":
             same = ld["stack"] == wd["stack"]
         else:
@@ -338,6 +349,8 @@ def judge(m, r, stats):
             out.append((f"stack:{kind}:z={z}:{stack_cause(m)}:ld={ld['stack']}:wild={wd['stack']}",
                         f"GNU ld: {ld['stack']}; wild: {wd['stack']}"))
         stats["stack_judged"] += 1
+        if {st for st, _c in m["objs"]} != {"n"}:
+            stats["stack_nontrivial"] += 1
         return out
     # property families
     model = model_props(m)
@@ -405,7 +418,8 @@ def members(tier, z_extra):
     names = list(PROP_CHOICES)
     zp = [[], ["x86-64-v2"], ["x86-64-v3"]] + [[z] for z in z_extra]
     if thorough:
-        zp += [["x86-64-baseline"], ["x86-64-v4"]]
+        zp += [["x86-64-v4"]]     # not x86-64-baseline: GNU ld 2.40 aborts on it (internal error
+        #                           in _bfd_x86_elf_merge_gnu_properties), so there is no reference
         combos = list(itertools.product(names, repeat=2)) + list(itertools.product(names, repeat=3))
     else:
         # quick: all pairs; triples = (c, c, d) and (c, d, d) patterns with the absent object in
@@ -435,12 +449,19 @@ def members(tier, z_extra):
         for so in SO_CHOICES:
             for kind in ("exe", "shared"):
                 ms.append(dict(fam="solib", kind=kind, z=[], objs=[("n", c) for c in combo], so=so))
-    return ms
+    seen, uniq = set(), []
+    for m in ms:                 # identical command lines (e.g. two region forms that coincide) once
+        k = tuple(member_argv(m))
+        if k not in seen:
+            seen.add(k)
+            uniq.append(m)
+    return uniq
 
 
 def new_stats():
     return dict(evaluations=0, ld_rejects=0, ld_rejects_wild_accepts=0, ld_reject_samples={},
-                wild_rejects=0, stack_judged=0, stack_presence_differs=0, prop_judged=0,
+                wild_rejects=0, stack_judged=0, stack_nontrivial=0, stack_r_with_z_not_judged=0,
+                stack_r_with_z_differs=0, stack_presence_differs=0, prop_judged=0,
                 prop_nontrivial=0, model_disagrees=0, model_disagrees_and_wild_differs=0,
                 model_disagree_classes={}, ld_outcomes=set(), machinery=[])
 
@@ -484,12 +505,14 @@ def main():
         n_so = materialise(os.path.join(base, "in"), ms)
         results = wildrun.pmap(run_member, [(i, m, base) for i, m in enumerate(ms)])
         per_fam = {}
+        keys = {}
         for r in results:
             m = ms[r["idx"]]
             pf = per_fam.setdefault(m["fam"], dict(members=0, findings=0))
             pf["members"] += 1
             for key, what in judge(m, r, stats):
                 pf["findings"] += 1
+                keys[key] = keys.get(key, 0) + 1
                 chk.violation(key, f"{label(m)}: {what}",
                               {"member": m, "ld": "ld " + " ".join(member_argv(m)) + " -o ld.out",
                                "wild": "wild " + " ".join(member_argv(m)) + " -o wild.out",
@@ -503,7 +526,8 @@ def main():
                       f"{stats['stack_judged']} stack members were judged")
     chk.coverage = {
         "evaluations": stats["evaluations"],
-        "distinct_nontrivial": len(stats["ld_outcomes"]),
+        "distinct_nontrivial": stats["prop_nontrivial"] + stats["stack_nontrivial"],
+        "distinct_gnu_ld_outcomes": len(stats["ld_outcomes"]),
         "rule": "stack: {a,n,x}^n for n=1..3 x Z x {exe,-shared,-r}; prop: " +
                 ("all 81 pairs + all 729 triples" if chk.thorough else
                  "all 81 pairs x Z x kind, + triples with <= 2 distinct choices one of which is "
@@ -511,16 +535,23 @@ def main():
                 " of the 9 PROP_CHOICES x Z x kind; extras: every ordered pair of a base choice and "
                 "an extra choice + each extra alone x kind; solib: " +
                 ("(9 + 81)" if chk.thorough else "(9 + 27)") + f" object combinations x {len(SO_CHOICES)} shared "
-                "libraries x {exe,-shared}. distinct_nontrivial = number of distinct GNU ld outcomes "
-                "(stack state per kind, decoded property list) observed.",
+                "libraries x {exe,-shared}. Identical command lines (prop members without any note = stack "
+                "members) are enumerated once, so members are pairwise distinct; distinct_nontrivial = judged "
+                "stack members in which some input lacks the note or asks for an executable stack + "
+                "judged property members whose inputs differ from each other and whose merged list is "
+                "not empty; distinct_gnu_ld_outcomes = distinct (stack state per kind | decoded property "
+                "list) results of GNU ld.",
         "members": len(ms), "per_family": per_fam,
         "gnu_ld_links": len(ms) + n_so, "subprocesses": len(ms) + n_so, "wild_links": len(ms) + 2,
         "z_options_property_family": sorted({z for m in ms if m["fam"] == "prop" for z in m["z"]}),
         "z_options_not_accepted_by_wild": [z for z in ("ibt", "shstk") if z not in z_extra],
         "stack_members_judged": stats["stack_judged"],
         "stack_members_where_only_segment_presence_differs": stats["stack_presence_differs"],
+        "stack_r_members_with_z_option_enumerated_not_judged": stats["stack_r_with_z_not_judged"],
+        "of_those_section_state_differs_from_ld": stats["stack_r_with_z_differs"],
         "property_members_judged_model_and_ld_agree": stats["prop_judged"],
         "property_members_with_differing_inputs_and_nonempty_result": stats["prop_nontrivial"],
+        "stack_members_judged_not_all_plain_notes": stats["stack_nontrivial"],
         "property_members_excluded_model_vs_ld": stats["model_disagrees"],
         "of_those_wild_differs_from_ld": stats["model_disagrees_and_wild_differs"],
         "model_vs_ld_disagreement_classes": stats["model_disagree_classes"],
@@ -528,13 +559,16 @@ def main():
         "gnu_ld_rejects_wild_accepts": stats["ld_rejects_wild_accepts"],
         "gnu_ld_reject_samples": stats["ld_reject_samples"],
         "wild_rejects_ld_accepts": stats["wild_rejects"],
+        "finding_keys": keys,
         "samples": [label(ms[0]), label(ms[len(ms) // 3]), label(ms[len(ms) // 2]), ms[-1]],
         "exhaustive": True,
     }
     chk.assumptions = [
         "x86-64 only (GNU ld 2.40 is the reference); property values are 4-byte words",
         "a missing PT_GNU_STACK is treated as 'not executable' (x86-64 Linux >= 5.8 semantics); only "
-        "executability is judged for exe / -shared, the exact section state for -r",
+        "executability is judged for exe / -shared, the exact section state for -r without -z "
+        "options; -r with -z execstack / noexecstack is enumerated but not judged (GNU ld's result "
+        "is input-order dependent there)",
         "a property difference is a violation only where the psABI model and GNU ld agree",
         "-z ibt / -z shstk are enumerated only if wild accepts them (it warns 'not yet supported')",
     ]
